@@ -180,6 +180,29 @@ theorem inconsistent_layer_values_rejected {F} (ops : FieldOps F) (v : Verifier 
   rw [hbad _ qv hc.folded h1] at h2
   cases h2
 
+/-- FEWER (OR MORE) LAYERS THAN COMMITTED (fix 14a37ea): a proof whose number of layers is not the
+number of commitments minus one is rejected by `DefaultVerifierChannel::new` with an error, before
+anything is taken out of the channel — never a panic. -/
+theorem layer_count_mismatch_rejected {F} (ops : FieldOps F) (o : FriOptions) (maxPolyDegree numPartitions : Nat)
+    (gOf : Nat → F) (offset : F) (alphas evaluations : List F) (positions : List Nat)
+    (openings : List (LayerOpening F)) (remainder : List F) (remainderOk : Bool)
+    (h : openings.length + 1 ≠ alphas.length) :
+    newAndVerify ops o maxPolyDegree numPartitions gOf offset alphas evaluations positions openings
+      remainder remainderOk = .err (.proofLayerCountMismatch (alphas.length - 1) openings.length) :=
+  newAndVerify_layer_count ops o maxPolyDegree numPartitions gOf offset alphas evaluations positions
+    openings remainder remainderOk h
+
+/-- with at least as many openings as iterations the loop itself never runs out of layers
+(`Vec::remove(0)` on an empty vector is unreachable): an abort of the loop is an abort inside one
+particular iteration (out-of-range position / malformed rows, excluded by the Merkle check and the
+position range in the real protocol) -/
+theorem loop_never_exhausts_channel {F} (ops : FieldOps F) (v : Verifier F) (k depth : Nat)
+    (st : LoopState F) (os : List (LayerOpening F)) (hlen : k ≤ os.length)
+    (h : verifyLoop ops v k depth st os = .abort) :
+    ∃ (i : Nat) (s : LoopState F) (o : LayerOpening F), i < k ∧ os[i]? = some o ∧
+      verifyLayer ops v (depth + i) s o = .abort :=
+  verifyLoop_exhausted ops v k depth st os hlen h
+
 /-! ## §3 the adaptive substitution of the remainder -/
 
 variable {K : Type} [Field K] [DecidableEq K]
@@ -282,6 +305,21 @@ example :
     run17 { blowup := 2, folding := 2, rmd := 1 } evals8 3 [5, 7] [5, 2]
       (fun r => [(r.getD 0 0 + 1) % 17, (r.getD 1 0 + 5) % 17]) true true =
         some (.err .invalidRemainderFolding) := by
+  decide +kernel
+
+/-- a proof with its only layer dropped, and one with the layer repeated, through
+`DefaultVerifierChannel::new`: an error, not a panic; the untouched proof is accepted -/
+def run17new (edit : List (List (List Nat)) → List (List (List Nat))) : Option (Res Unit) :=
+  let o : FriOptions := { blowup := 2, folding := 2, rmd := 1 }
+  (buildLayers ops17 o 2 3 [5, 7] evals8).bind fun lr =>
+    (buildProofLayers 2 lr.1 [5, 2] 8).map fun opened =>
+      newAndVerify ops17 o 3 1 (fun _ => 2) 3 [5, 7] ([5, 2].map (evals8.getD · 0)) [5, 2]
+        ((edit opened).map fun rows => { rows := rows, merkleOk := true }) lr.2 true
+
+example :
+    run17new id = some (.ok ()) ∧
+    run17new (fun _ => []) = some (.err (.proofLayerCountMismatch 1 0)) ∧
+    run17new (fun l => l ++ l) = some (.err (.proofLayerCountMismatch 1 2)) := by
   decide +kernel
 
 end Wf.Props.C09
